@@ -26,6 +26,13 @@ def is_signed(event, config):
         event.pubkey, event.created_at, event.kind, event.tags, event.content
     ):
         raise StorageError("invalid: Bad signature")
+    # pubkey and sig are stored as bytes: anything but canonical lower-case hex
+    # would be served differently from what was signed
+    if (
+        bytes.fromhex(event.pubkey).hex() != event.pubkey
+        or bytes.fromhex(event.sig).hex() != event.sig
+    ):
+        raise StorageError("invalid: pubkey and sig must be lower-case hex")
 
 
 def is_recent(event, config):
